@@ -155,7 +155,11 @@ def is_single_line_expr(text):
     if "\n" in text or "\r" in text:
         return "contains a line break"
     try:
-        compile(text, "<o>", "eval")
+        import warnings
+
+        with warnings.catch_warnings():
+            warnings.simplefilter("ignore")
+            compile(text, "<o>", "eval")
     except (SyntaxError, ValueError) as e:
         return "does not compile: %s" % scrub(e)
     except (RecursionError, MemoryError) as e:
